@@ -1529,6 +1529,142 @@ def held_across_change(obj: Any, holders: Iterable, change: Callable[[Any], Any]
         try:
             h = take(obj)
             before = observe(h)
+# probes for PARAMETER OBJECTS a decoder / getter hands out and the application then EDITS IN PLACE (a received set of
+# parameters turned into the application's own report): what is decoded afterwards - from the same octets, from an equal
+# freshly packed message - still shows the documented values. `public_view` / `mutate_public` are the generic halves of such a
+# probe (used with redecode_after_mutation / factory_independent): everything observable of an object through its public
+# attributes as plain values, and an in-place edit of every public attribute that can be edited
+# --------------------------------------------------------------------------------------------
+def _public_names(obj: Any, settable_only: bool = False) -> List[str]:
+    """public data attributes of an instance: dataclass fields, public instance attributes, public properties of its class
+    (with settable_only: only properties that have a setter); methods and class-level constants are not data of the instance"""
+    fields, props, settable = _class_data_names(type(obj))
+    names = set(fields)
+    d = getattr(obj, "__dict__", None)
+    if d:
+        names.update(n for n in d if n[:1] != "_")
+    names.update(settable if settable_only else props)
+    return sorted(names)
+
+
+_CLASS_DATA_NAMES: Dict[type, Any] = {}
+
+
+def _class_data_names(klass: type):
+    """(dataclass field names, names of all public properties, names of those with a setter) of a class - the most derived
+    definition of a name counts"""
+    got = _CLASS_DATA_NAMES.get(klass)
+    if got is None:
+        import dataclasses
+        seen: Dict[str, Any] = {}
+        for k in klass.__mro__:
+            for n, v in vars(k).items():
+                if n not in seen and not n.startswith("_"):
+                    seen[n] = None if not isinstance(v, property) else v.fset is not None
+        fields = [f.name for f in dataclasses.fields(klass)] if dataclasses.is_dataclass(klass) else []
+        got = (fields, [n for n, v in seen.items() if v is not None], [n for n, v in seen.items() if v])
+        _CLASS_DATA_NAMES[klass] = got
+    return got
+
+
+def _is_leaf(x: Any) -> bool:
+    import enum
+    return x is None or isinstance(x, (bool, int, float, str, bytes, enum.Enum))
+
+
+def public_view(obj: Any, depth: int = 4, package: str = "spacepackets") -> Any:
+    """everything observable of `obj` through its public data attributes, as plain values that do not depend on object
+    identity (enums -> int / name, octets -> hex, containers element-wise, instances of classes of `package` ->
+    {attribute: view}, other instances -> their text); an attribute whose read raises is part of the view ("!<category>").
+    Only ever compared with another public_view taken in the same process of an object that must show the same values."""
+    t = type(obj)
+    if obj is None or t is int or t is str or t is bool:
+        return obj
+    if t is bytes or t is bytearray or t is memoryview:
+        return {"octets": bytes(obj).hex()}
+    if isinstance(obj, _ENUM):
+        return int(obj) if isinstance(obj, int) else f"{t.__name__}.{obj.name}"
+    if isinstance(obj, (bool, int, str)):
+        return obj
+    if isinstance(obj, float):
+        return repr(obj)
+    if isinstance(obj, (bytes, bytearray, memoryview)):
+        return {"octets": bytes(obj).hex()}
+    if isinstance(obj, (list, tuple)):
+        return [public_view(e, depth - 1, package) for e in obj]
+    if isinstance(obj, (set, frozenset)):
+        return sorted((public_view(e, depth - 1, package) for e in obj), key=lambda v: json.dumps(v, sort_keys=True, default=str))
+    if isinstance(obj, dict):
+        return {str(k): public_view(v, depth - 1, package) for k, v in obj.items()}
+    if depth <= 0 or callable(obj) or isinstance(obj, type):
+        return {"": t.__name__}
+    if not (t.__module__ or "").startswith(package):
+        # an object of the standard library (a Path, a datetime): its text, unless that is the default `<X object at 0x…>`
+        plain = t.__str__ is object.__str__ and t.__repr__ is object.__repr__
+        return {"": t.__name__} if plain else {"": t.__name__, "str": str(obj)}
+    out: Dict[str, Any] = {"": t.__name__}
+    for n in _public_names(obj):
+        try:
+            out[n] = public_view(getattr(obj, n), depth - 1, package)
+        except (SelfCheckFailure, InfraError):
+            raise
+        except Exception as e:  # noqa
+            out[n] = "!" + exc_category(e)
+    return out
+
+
+import enum as _enum_mod
+_ENUM = _enum_mod.Enum
+
+
+def _other_values(cur: Any) -> List[Any]:
+    """values of the same kind as `cur` and different from it (candidates for an in-place edit, tried in this order)"""
+    import enum
+    if isinstance(cur, enum.Enum):
+        members = list(type(cur))
+        i = members.index(cur)
+        return [m for m in members[i + 1:] + members[:i] if m is not cur and m != cur][:3]
+    if isinstance(cur, bool):
+        return [not cur]
+    if isinstance(cur, int):
+        return [c for c in (cur ^ 1, cur + 1, 0, 1) if c != cur]
+    if isinstance(cur, float):
+        return [cur + 1.0]
+    if isinstance(cur, str):
+        return [cur + "~"]
+    if isinstance(cur, bytes):
+        return [bytes(b ^ 0xFF for b in cur) if cur else b"\xee", cur + b"\xee"]
+    return []
+
+
+def mutate_public(obj: Any, depth: int = 3) -> int:
+    """what an application does that re-uses a parameter object it was handed: EDITS IT IN PLACE through its public
+    attributes. Every dataclass field / public instance attribute / property with a setter of `obj` that holds a plain value
+    (enum member, bool, int, float, str, bytes) is assigned a different value of the same kind (a setter that refuses is tried
+    with the next candidate, then left alone); attributes that hold objects, and the elements of lists / tuples / dicts, are
+    edited in place the same way (a bytearray is complemented in place). Returns the number of edits made. The caller is
+    expected to have taken core.state_snapshot(obj) before, to put everything back afterwards."""
+    if depth < 0 or _is_leaf(obj):
+        return 0
+    n = 0
+    if isinstance(obj, bytearray):
+        if len(obj) == 0:
+            return 0
+        obj[:] = bytes(b ^ 0xFF for b in obj)
+        return 1
+    if isinstance(obj, (list, tuple, set, frozenset)):
+        for e in list(obj):
+            n += mutate_public(e, depth - 1)
+        return n
+    if isinstance(obj, dict):
+        for e in list(obj.values()):
+            n += mutate_public(e, depth - 1)
+        return n
+    if callable(obj) or isinstance(obj, (type, memoryview)):
+        return 0
+    for name in _public_names(obj, settable_only=True):
+        try:
+            cur = getattr(obj, name)
         except (SelfCheckFailure, InfraError):
             raise
         except Exception:  # noqa
@@ -1556,3 +1692,11 @@ def held_across_change(obj: Any, holders: Iterable, change: Callable[[Any], Any]
                     f"AFTER the change: {_short(before)} became {_short(after)}{tail} - what a conversion returned is a value of "
                     f"its own and does not follow (parts of) the object it was made from")
     return None
+        if _is_leaf(cur):
+            for cand in _other_values(cur):
+                if tolerant_set(obj, name, cand):
+                    n += 1
+                    break
+        else:
+            n += mutate_public(cur, depth - 1)
+    return n
